@@ -121,6 +121,11 @@ def rand_value(rng, k, n, d):
         return rng.integers(0, 3, n)
     if k in ("steps", "calls", "iter"):
         return int(rng.integers(0, 1000))
+    r = rng.random()
+    if r < 0.25:
+        return np.array(float(rng.random()))          # 0-d array: mutable, must be copied like any other array
+    if r < 0.35:
+        return np.float64(rng.random())
     return float(rng.random())
 
 
@@ -397,17 +402,22 @@ def run():
                 ck.violation(key, what, dict(stream=["seq", idx]))
     from tvf import runs
     m = ck.pick(6, 40)
-    tasks = [("tvf.checks.c17:twin", dict(cfg=dict(runs.small_cfg(i), seed=ck.subseed("twin", i)), n_iter=ck.pick(6, 10)), None) for i in range(m)]
+    def tcfg(i):
+        c = dict(runs.small_cfg(i), seed=ck.subseed("twin", i))
+        if i % 3 == 2:     # a target with a zero-likelihood region: exercises the warm-up replacement / correction path
+            c.update(target="support", tkw=dict(f=0.5), ess_ratio=3.0)
+        return c
+    tasks = [("tvf.checks.c17:twin", dict(cfg=tcfg(i), n_iter=ck.pick(6, 10)), None) for i in range(m)]
     for i, st, val in farm.run(tasks, timeout=600, progress="C17-twin"):
         if st != "ok":
-            ck.violation("twin-run-crashed", f"twin run {runs.small_cfg(i)}: {st} {str(val)[-600:]}", dict(cfg=runs.small_cfg(i)))
+            ck.violation("twin-run-crashed", f"twin run {tasks[i][1]['cfg']}: {st} {str(val)[-600:]}", dict(cfg=tasks[i][1]["cfg"]))
             continue
         bad, hit, nh = val
-        ck.case(dict(twin=runs.small_cfg(i)), nontrivial=hit > 0)
+        ck.case(dict(twin=tasks[i][1]["cfg"]), nontrivial=hit > 0)
         ck.event("sampler twin runs (hostile vs untouched caller)")
         ck.event("arrays overwritten by the hostile caller", hit)
         for key, what in bad:
-            ck.violation(key, what, dict(cfg=runs.small_cfg(i)))
+            ck.violation(key, what, dict(cfg=tasks[i][1]["cfg"]))
     ck.require_events("operation sequences compared with reference model", "op commit", "op to_dict", "op results",
                       "sampler twin runs (hostile vs untouched caller)", "arrays overwritten by the hostile caller")
     return ck.finish(
